@@ -1,10 +1,10 @@
 #!/bin/sh
 # Verify a seeded change produced by an independent sub-agent and file it under /verif/seeded/.
-# usage: tools/verify_seed.sh <Cxx> <n>        (reads /tmp/mut-out/<Cxx>/change<n>.diff, demo<n>.py, meta<n>.json)
+# usage: tools/verify_seed.sh <Cxx> <n> [srcbase=/tmp/mut-out] [outn=n]   (reads <srcbase>/<Cxx>/change<n>.diff, demo<n>.py, meta<n>.json; files /verif/seeded/<Cxx>-<outn>)
 # Confirms in a scratch worktree: diff applies to pristine HEAD; demo passes without and fails with the change;
 # the existing test suite (tornado/test) passes with the change (load-flaky tests are re-run alone).
-P="$1"; N="$2"; SRC="/tmp/mut-out/$P"
-W="/tmp/seedchk/$P-$N"; OUT="/verif/seeded/$P-$N"
+P="$1"; N="$2"; SRC="${3:-/tmp/mut-out}/$P"; ON="${4:-$N}"
+W="/tmp/seedchk/$P-$ON"; OUT="/verif/seeded/$P-$ON"
 mkdir -p /tmp/seedchk; rm -rf "$W"; git -C /repo worktree prune
 git -C /repo worktree add --detach "$W" HEAD >/dev/null 2>&1 || { echo "worktree failed"; exit 2; }
 trap 'git -C /repo worktree remove --force "$W" >/dev/null 2>&1' EXIT
